@@ -239,9 +239,32 @@ class AbsExec:
             if "fn" in op:
                 from .terms import FnKey
                 return ("fnref", FnKey(op["fn"]))
-            if hasattr(self.domain, "const"):
-                return self.domain.const(self, op)
+            v = self.domain.const(self, op) if hasattr(self.domain, "const") else TOP
+            if v is TOP or v == TOP or v is NotImplemented:
+                v = self.default_const(op)
+            return v
+        return TOP
+
+    def default_const(self, op):
+        """what every domain can say about a constant: an integer `const` item, a table of a crate-local enum / struct as rustc
+        evaluated it (variants with their payloads), a promoted constant through its own little body"""
+        if "promoted" in op:
+            pb = self.F.promoted.get((op.get("uneval_def"), op["promoted"]))
+            if pb is not None and getattr(self, "depth", 0) < 12:
+                sub = AbsExec(self.F, self.domain, self.max_steps, self.max_paths, self.inline)
+                sub.depth = getattr(self, "depth", 0) + 1
+                rs = sub.run(pb, [])
+                if len(rs) == 1:
+                    return rs[0][0]
             return TOP
+        d = op.get("uneval_def")
+        c = self.F.consts.get(d) if d else None
+        if c:
+            if "int" in c:
+                return int(c["int"])
+            tree = self.F.const_tree(d)
+            if tree is not None:
+                return _tree_value(tree)
         return TOP
 
     def rvalue(self, fr, rv):
@@ -605,6 +628,14 @@ class CoreIter:
         return "CoreIter(%d@%d)" % (len(self.items), self.pos)
 
 
+def _tree_value(t):
+    if isinstance(t, tuple) and t and t[0] == "list":
+        return Tup([_tree_value(x) for x in t[1]])
+    if isinstance(t, tuple) and t and t[0] == "adt":
+        return Adt(t[1], t[2], [_tree_value(x) for x in t[3]])
+    return t
+
+
 def _as_iter(v):
     if isinstance(v, CoreIter):
         return v
@@ -622,6 +653,11 @@ def int_builtin(ex, fk, args):
     `BITS - n.leading_zeros() - 1` is the same constant either way), and iteration over constant ranges."""
     d = fk.d
     nm = fk.name
+    if nm in ("iter", "len") and d.startswith("core::slice::<impl [T]>::") and len(args) == 1:
+        # a literal table of a crate-local enum / struct (a `const` array as rustc evaluated it), walked as a slice
+        v0 = deref_value(ex, args[0])
+        if isinstance(v0, Tup) and v0.items and all(isinstance(x, Adt) and isinstance(x.name, str) and x.name in ex.F.adts and isinstance(x.variant, str) for x in v0.items):
+            return CoreIter(list(v0.items)) if nm == "iter" else len(v0.items)
     if nm in ("into_iter", "iter", "rev", "next", "enumerate", "len", "next_back") and args and (d.startswith("core::iter") or d.startswith("<core::ops::Range") or "Iterator" in d or "IntoIterator" in d or "core::ops::Range" in fk.i):
         v0 = deref_value(ex, args[0])
         it = _as_iter(v0)
